@@ -195,6 +195,17 @@ def job_continuum(cfg):
             I0, Ik = exact_face_integrals(dim, axis, value, zero)
             want_F = I0 * thick_factor
             want_M = [Ik[k] * thick_factor for k in range(dim)]
+        elif load in ("volume_plain", "surf_plain"):
+            # the density is a plain Python number (the most common call): same resultant AND same first moments as any other constant density
+            plain = [as_sym(Fraction(3, 4))] + [as_sym(0)] * dim
+            if load == "volume_plain":
+                simu.add_volumeLoad(mesh.nodes, [0.75], [unknown])
+                I0, Ik = exact_volume_integrals(dim, plain)
+            else:
+                simu.add_surfLoad(nodes, [0.75], [unknown])
+                I0, Ik = exact_face_integrals(dim, axis, value, plain)
+            want_F = I0 * thick_factor
+            want_M = [Ik[k] * thick_factor for k in range(dim)]
         elif load == "volume_poly":
             simu.add_volumeLoad(mesh.nodes, [f_of(coefs)], [unknown])
             I0, Ik = exact_volume_integrals(dim, coefs) if not cfg.get("merged") else exact_box_integrals(dim, coefs, [2, 1, 1])
@@ -229,6 +240,10 @@ def job_continuum(cfg):
             s2.add_surfLoad(nodes, [v2], [unknown])
         elif load == "surf_const":
             s2.add_surfLoad(nodes, [cf[0]], [unknown])
+        elif load == "volume_plain":
+            s2.add_volumeLoad(mesh.nodes, [0.75], [unknown])
+        elif load == "surf_plain":
+            s2.add_surfLoad(nodes, [0.75], [unknown])
         elif load == "volume_poly":
             s2.add_volumeLoad(mesh.nodes, [f_of(cf)], [unknown])
         elif load == "point":
@@ -482,6 +497,11 @@ def main():
             k += 1
     for et in ("TRI3", "QUAD4", "TETRA4", "PRISM6"):
         configs.append({"sim": "elastic", "elem": et, "load": "surf_poly", "selection": "only-stray", "axis": 0, "value": 1.0})
+    # plain-number densities on unstructured (non-parallelogram) first- and second-order elements: volume loads and the unstructured top face of the extrusions
+    for et in (["QUAD4", "HEXA8", "PRISM6"] if tier == "quick" else ["TRI3", "QUAD4", "QUAD8", "QUAD9", "TETRA4", "HEXA8", "HEXA20", "PRISM6", "PRISM15"]):
+        configs.append({"sim": "elastic", "elem": et, "load": "volume_plain", "selection": "face", "axis": 0, "value": 1.0})
+        if et in el3 or et in ("HEXA20", "PRISM15"):
+            configs.append({"sim": "elastic", "elem": et, "load": "surf_plain", "selection": "face", "axis": 2, "value": 1.0})
     for et, load in ((("TRI3", "surf_poly"), ("HEXA8", "surf_const"), ("PRISM6", "pressure")) if tier == "quick" else
                      (("TRI3", "surf_poly"), ("QUAD8", "surf_const"), ("TETRA4", "surf_poly"), ("HEXA8", "surf_const"), ("PRISM6", "pressure"), ("TRI6", "pressure"))):
         configs.append({"sim": "elastic", "elem": et, "load": load, "selection": "repeated", "axis": 0, "value": 1.0})
